@@ -101,6 +101,11 @@ def check_group(rep, g, tier, seed):
     for scn in ("logexp", "logexp_neg"):
         if fam == "Rn" and scn == "logexp_neg":
             continue
+        if fam == "SGal3" and tier == "quick":
+            if scn == "logexp":
+                rep.not_run.append("C03/SGal3 log(exp t) == t and the antipodal clause: ~20 paths of ~80 s each, run in the thorough tier only "
+                                   "(exp_log, angle and safe clauses for SGal3 are in the quick tier)")
+            continue
         n = 0
         for path in HARNESS.paths(g, scn):
             if scn == "logexp_neg" and path.ints.get("has_double_cover") == 0:
@@ -130,6 +135,11 @@ def check_group(rep, g, tier, seed):
         if path.thrown:
             c.must_not_throw()
             continue
+        if fam in QUAT:
+            # precondition of the finiteness clause: rotation angle != pi (w != 0), the excluded measure-zero set
+            lo = {"SO3": 0, "SE3": 3, "SE_2_3": 3, "SGal3": 3}[fam]
+            wname = c.inputs[0].names()[lo + 3]
+            c.extra_facts.append(lambda z, wname=wname: z.zv(wname) != 0)
         c.vec("out")
         c.check_safe()
         if fam in QUAT:
